@@ -214,4 +214,68 @@ fn clip_batch_trivial_paths() {
     }
 }
 
+fn cvert(x: F, y: F, z: F, w: F) -> ClipVert<F> {
+    // concrete position (so every control decision of the clipper is concrete), symbolic attribute payload
+    ClipVert::new(vertex(ClipVec::new([x, y, z, w]), kani::any()))
+}
+
+// @ob props=C03 tier=quick kind=B cfg=core-std timeout=1800
+// @fn <[Tri<ClipVert<A>>] as Clip>::clip ; clip_simple_polygon ; ClipPlane::clip_simple_polygon
+// @bound three fixed clip-space geometries (a triangle that survives the outcode test but is clipped away completely, one clipped to a quad across the right plane, one crossing near and left with w varying); complete in the attribute payload (all f32)
+// @clause batch independence on the clipped path: the triangles produced for an input are, bit for bit, those produced when it is clipped alone, whatever precedes it in the same call (also an input that is whittled down to nothing), and a wholly clipped-away input produces nothing; on the quad geometry every kept vertex keeps its attribute and each inserted vertex lies on the plane and carries the attribute interpolated along its edge with the same parameter as the position
+#[cfg(not(verif_skip_clip_batch_clipped_paths))]
+#[kani::proof]
+#[kani::unwind(12)]
+fn clip_batch_clipped_paths() {
+    let ghost = Tri([cvert(2.0, 2.0, 2.0, 1.0), cvert(2.0, -2.0, 0.0, 1.0), cvert(0.0, -1.0, 2.0, 1.0)]);
+    let quad = Tri([cvert(0.0, 0.0, 0.0, 1.0), cvert(2.0, 0.0, 0.0, 1.0), cvert(0.0, 0.0, 0.5, 1.0)]);
+    let corner = Tri([cvert(-3.0, 0.0, -2.0, 1.0), cvert(0.5, 0.5, 0.5, 2.0), cvert(0.0, -0.5, 1.0, 1.5)]);
+    let run = |ts: &[Tri<ClipVert<F>>]| {
+        let mut out = alloc::vec::Vec::new();
+        view_frustum::clip(ts, &mut out);
+        out
+    };
+    let alone_q = run(&[quad.clone()]);
+    let alone_c = run(&[corner.clone()]);
+    assert!(run(&[ghost.clone()]).is_empty());
+    let batch = run(&[ghost.clone(), quad.clone(), ghost.clone(), corner.clone()]);
+    kani::cover!(alone_q.len() == 2);
+    kani::cover!(alone_c.len() >= 2);
+    assert!(batch.len() == alone_q.len() + alone_c.len());
+    // attributes intact on the clipped quad: kept vertices keep their attribute, the two inserted vertices
+    // (edge v0-v1 and edge v1-v2 cross the right plane x = w at parameter 1/2) carry the edge's interpolated value
+    let (a0, a1, a2) = (quad.0[0].attrib, quad.0[1].attrib, quad.0[2].attrib);
+    let beq = |x: F, y: F| x.to_bits() == y.to_bits() || (x.is_nan() && y.is_nan());
+    let mut t = 0;
+    while t < alone_q.len() {
+        let mut k = 0;
+        while k < 3 {
+            let v = &alone_q[t].0[k];
+            let [x, _, z, w] = v.pos.0;
+            assert!(w == 1.0 && x <= 1.0);
+            if x == 0.0 && z == 0.0 {
+                assert!(beq(v.attrib, a0));
+            } else if x == 0.0 {
+                assert!(z == 0.5 && beq(v.attrib, a2));
+            } else if z == 0.0 {
+                assert!(x == 1.0 && beq(v.attrib, a0.lerp(&a1, 0.5)));
+            } else {
+                assert!(x == 1.0 && z == 0.25 && beq(v.attrib, a1.lerp(&a2, 0.5)));
+            }
+            k += 1;
+        }
+        t += 1;
+    }
+    let mut i = 0;
+    while i < batch.len() {
+        let want = if i < alone_q.len() { &alone_q[i] } else { &alone_c[i - alone_q.len()] };
+        let mut k = 0;
+        while k < 3 {
+            assert!(same_vert(&batch[i].0[k], &want.0[k]));
+            k += 1;
+        }
+        i += 1;
+    }
+}
+
 include!("gen/dispatch_clip.rs");
